@@ -36,6 +36,8 @@ def configs(draw):
             "source": draw(st.sampled_from(["object", "object", "file", "mem"])),
             "n_batches": draw(st.integers(1, 4)), "logprobs": draw(st.booleans()), "randomize": draw(st.booleans()),
             "n_linear": draw(st.sampled_from([1, 2])), "multipool": draw(st.sampled_from([False, False, False, True])),
+            # iterative sampler: small first batches and large requests force several grow-and-retest iterations
+            "n_req": draw(st.integers(1, 12)), "init_batch": draw(st.integers(1, 6)),
             "seed": draw(st.integers(0, 2**31))}
 
 
@@ -81,7 +83,8 @@ def body_factory(ctx):
             if cfg["api"] == "rej":
                 return j.rejection_sample(data, src, n_batches=cfg["n_batches"], return_logprobs=cfg["logprobs"],
                                           randomize_prior_order=cfg["randomize"], n_linear_samples=cfg["n_linear"], in_memory=mem)
-            return j.iterative_rejection_sample(data, src, n_requested_samples=2, init_batch_size=max(1, len(lib) // 2),
+            return j.iterative_rejection_sample(data, src, n_requested_samples=cfg.get("n_req", 2),
+                                                init_batch_size=max(1, min(cfg.get("init_batch", len(lib) // 2), len(lib))),
                                                 n_batches=cfg["n_batches"], return_logprobs=cfg["logprobs"],
                                                 randomize_prior_order=cfg["randomize"], n_linear_samples=cfg["n_linear"], in_memory=mem)
 
@@ -100,7 +103,9 @@ def body_factory(ctx):
                 ll = np.asarray(j.marginal_ln_likelihood(data, lib, n_batches=cfg["n_batches"]))
                 out = j.rejection_sample(data, lib, n_batches=cfg["n_batches"])
             except BaseException as e:
-                raise Violation("%s: the same TheJoker fails on the next call: %s: %s" % (what, type(e).__name__, str(e)[:200]))
+                import traceback as _tb
+                raise Violation("%s: the same TheJoker fails on the next call: %s: %s" % (what, type(e).__name__, str(e)[:200]),
+                                traceback=_tb.format_exc(limit=-8))
             if ll.tobytes() != baseline.tobytes():
                 raise Violation("%s: the next call on the same TheJoker gives different likelihoods" % what)
             if len(out) < 1 or not set(np.asarray(out["P"].value).tolist()) <= P_lib:
@@ -135,6 +140,30 @@ def body_factory(ctx):
                     for p in plans:
                         if p["exc"] == "InjectedBase" and p["point"] in ("worker@start",):
                             p["exc"] = "InjectedError"
+                # ---------------------------------------------------------------- invalid prior-sample arguments
+                if cfg["source"] == "object":
+                    import pathlib
+                    bad_sources = [("QTable", lib.tbl), ("ndarray", np.zeros((3, 5))), ("Path", pathlib.Path(userfile)), ("None", None)]
+                    for label, bad in bad_sources:
+                        jb = make_joker(faults.FaultyPool(schwimmbad.SerialPool(), size=1))
+                        faults.reset(None)
+                        try:
+                            if cfg["api"] == "mll":
+                                jb.marginal_ln_likelihood(data, bad)
+                            elif cfg["api"] == "rej":
+                                jb.rejection_sample(data, bad)
+                            else:
+                                jb.iterative_rejection_sample(data, bad, n_requested_samples=2)
+                            raised_bad = None
+                        except BaseException as e:
+                            raised_bad = e
+                        what = "%s with an invalid prior_samples argument (%s)" % (cfg["api"], label)
+                        if raised_bad is None:
+                            ctx.classes["invalid prior_samples argument accepted: " + label] += 1
+                        post_checks(jb, what)
+                        follow_up(jb, what)
+                        ctx.note_case({"cfg": {k_: v for k_, v in cfg.items() if k_ != "spec"}, "bad_source": label,
+                                       "problem": fingerprint(spec)}, True, ["point:invalid source " + label, "api:" + cfg["api"]])
                 # ---------------------------------------------------------------- enumerate every injection
                 for plan in plans:
                     if ctx.expired():
@@ -142,8 +171,12 @@ def body_factory(ctx):
                         continue
                     what = "%s/%s, fault %s at %s #%d" % (cfg["api"], cfg["source"], plan["exc"], plan["point"], plan["k"])
                     mp = None
+                    worker_fault = plan["point"] == "worker@start"
                     if cfg["multipool"]:
-                        faults.reset(plan)  # forked workers inherit the plan
+                        # worker-side faults: the workers must inherit the plan when they are forked (that pool cannot be
+                        # told afterwards that the plan is over, so the follow-up calls get a fresh pool);
+                        # parent-side faults: workers are forked clean and the very same pool serves the follow-up calls
+                        faults.reset(plan if worker_fault else None)
                         from schwimmbad import MultiPool
                         mp = MultiPool(2)
                         pool = faults.FaultyPool(mp, size=2)
@@ -153,13 +186,9 @@ def body_factory(ctx):
                     faults.reset(plan)
                     raised = None
                     try:
-                        try:
-                            ret = call(j)
-                        except BaseException as e:
-                            raised = e
-                    finally:
-                        if mp is not None:
-                            mp.close()
+                        ret = call(j)
+                    except BaseException as e:
+                        raised = e
                     faults.ACTIVE = None
                     if raised is None:
                         fired = faults.COUNTS.get(plan["point"], 0) >= plan["k"] or plan["point"] == "worker@start"
@@ -168,7 +197,11 @@ def body_factory(ctx):
                             # libraries): nothing was injected, nothing to judge
                             ctx.classes["fault point not reached again (skipped)"] += 1
                             post_checks(j, what)
+                            if mp is not None:
+                                mp.close()
                             continue
+                        if mp is not None:
+                            mp.close()
                         raise Violation("%s: the call returned normally although an internal step failed" % what,
                                         returned=type(ret).__name__, fault_fired=fired)
                     chain = []
@@ -180,9 +213,17 @@ def body_factory(ctx):
                             and "injected fault" not in str(raised):
                         raise Violation("%s: the exception that reached the caller is unrelated to the failure" % what,
                                         got="%s: %s" % (type(raised).__name__, str(raised)[:200]))
-                    post_checks(j, what)
-                    j.pool = faults.FaultyPool(schwimmbad.SerialPool(), size=1)
-                    follow_up(j, what)
+                    try:
+                        post_checks(j, what)
+                        if mp is not None and worker_fault:
+                            mp.close()
+                            mp = None
+                            j.pool = faults.FaultyPool(schwimmbad.SerialPool(), size=1)
+                        # otherwise the next calls use the same TheJoker *and the same pool object*
+                        follow_up(j, what)
+                    finally:
+                        if mp is not None:
+                            mp.close()
                     nt = plan["k"] > 1 or plan["point"] in ("worker@start", "JokerSamples.write:after", "pool.map:after") \
                         or (cfg["source"] == "object" and plan["point"] not in ("JokerSamples.write",))
                     ctx.note_case({"cfg": {k_: v for k_, v in cfg.items() if k_ != "spec"}, "plan": plan,
